@@ -319,7 +319,8 @@ def asdict_chunk(cases):
             w.reap(PID)
         req = inp["req"]
         if req["kind"] == "notacollection":
-            attrs = "name"
+            # (an empty or zero one is no more of a collection than "name")
+            attrs = ("name", "", 0, 7, 0.0, False, 3.5)[(i + len(st)) % 7]
         elif req["kind"] == "all":
             attrs = None
         else:
@@ -432,6 +433,57 @@ def check(ctx):
     evs = functional.observe(ctx, "AsDict", "as_dict-table", c, invariants=["RejectedBeforeQuerying", "AdValueSubset"])
     cases = [e for e in evs if e.get("op") == "observe"]
     functional.run_cases(ctx, "as_dict", cases, asdict_chunk, lambda c0, t: "as_dict:" + t.split("->")[-1].strip()[:24])
+    # (5) a process that changes state inside a block
+    check_inblock(ctx)
+
+
+# ---------------------------------------------------------------------------
+# the process changes state inside a block: what the block's records hold is still served
+# ---------------------------------------------------------------------------
+
+FROM_RECORDS = ["name", "ppid", "status", "cpu_times", "create_time", "cpu_num", "terminal",           # stat
+                "uids", "gids", "num_ctx_switches", "num_threads",                                      # status
+                "memory_info", "memory_percent", "memory_maps"]                                          # statm, smaps
+# (memory_full_info() is left out: with a roll-up file present it reads that file and statm anew at every
+# call -- neither is one of the records the statement names as shared)
+
+
+def inblock_chunk(cases):
+    w, ps = template()
+    out = []
+    for ci, (m, what, depth) in enumerate(cases):
+        fresh_world(w)
+        p = ps.Process(PID)
+        bad = None
+        cms = [p.oneshot() for _ in range(depth)]
+        for cm in cms:
+            cm.__enter__()
+        try:
+            first = getattr(p, m)()
+            if what == "vanish":
+                w.vanish(PID)
+            elif what == "zombie":
+                w.exit(PID)
+            elif what == "recycled":
+                w.reap(PID)
+                w.spawn(PID, comm=b"other", ppid=80, start=9000)
+            try:
+                second = getattr(p, m)()
+                if repr(second) != repr(first):
+                    bad = "%s() -> %r, then (process %s inside the block) -> %r" % (m, first, what, second)
+            except Exception as ex:  # noqa: BLE001
+                bad = "%s() -> %r, then (process %s inside the block) raised %r" % (m, first, what, ex)
+        finally:
+            for cm in reversed(cms):
+                cm.__exit__(None, None, None)
+        if bad:
+            out.append((ci, bad))
+    return out
+
+
+def check_inblock(ctx):
+    cases = [(m, what, depth) for m in FROM_RECORDS for what in ("vanish", "zombie", "recycled") for depth in (1, 2)]
+    functional.run_cases(ctx, "in-block", cases, inblock_chunk, lambda c0, t: "inblock:%s:%s" % (c0[0], c0[1]))
 
 
 def main(prop, argv):
